@@ -32,9 +32,29 @@ pub struct Scenario {
     pub at_boundaries: bool,
     /// the program uses the weak-observation channel
     pub weak: bool,
+    /// when set, `parts` are the sources of modules m0..m(n-1) and m<entry> is evaluated through
+    /// the simulated loader (zero latency) instead of evaluating the parts as scripts
+    #[serde(default)]
+    pub module_entry: Option<usize>,
 }
 
 pub fn generate(rng: &mut Rng, tier: Tier) -> Value {
+    if rng.chance(1, 8) {
+        // a module graph (same generator as C17, fault-free): records, environments, namespaces,
+        // async evaluation state under collection schedules
+        let g: crate::props::c17::Scenario = serde_json::from_value(crate::props::c17::generate(rng, tier)).expect("graph");
+        let parts: Vec<String> = g.mods.iter().enumerate().map(|(i, m)| crate::props::c17::render(i, m)).collect();
+        let sched = match rng.below(6) {
+            0 => Sched::EveryK(1),
+            1 => Sched::EveryK(2),
+            2 => Sched::EveryK(7),
+            3 => Sched::EveryK(64),
+            4 => Sched::Bernoulli { seed: rng.next_u64(), per_mille: *rng.pick(&[10u32, 50, 200]) },
+            _ => Sched::Boundaries,
+        };
+        let sc = Scenario { name: format!("modules:n{}", parts.len()), parts, budget: 0, sched, at_boundaries: rng.chance(1, 2), weak: false, module_entry: Some(g.entry) };
+        return serde_json::to_value(sc).expect("ser");
+    }
     let from_harvest = rng.chance(2, 5);
     let (name, parts, weak) = if from_harvest {
         let h = kernels::harvest();
@@ -71,7 +91,7 @@ pub fn generate(rng: &mut Rng, tier: Tier) -> Value {
         _ => Sched::Boundaries,
     };
     let budget = if rng.chance(1, 4) { *rng.pick(&[1u32, 2, 5, 13, 100, 256]) } else { 0 };
-    let sc = Scenario { name, parts, budget, sched, at_boundaries: rng.chance(1, 2), weak };
+    let sc = Scenario { name, parts, budget, sched, at_boundaries: rng.chance(1, 2), weak, module_entry: None };
     serde_json::to_value(sc).expect("ser")
 }
 
@@ -119,7 +139,46 @@ fn run_once(sc: &Scenario, collect: bool) -> Outcome {
         lag: None,
     };
     let weak_maps_before_drop;
-    {
+    if let Some(entry) = sc.module_entry {
+        use crate::seams::{LoadPlan, SimLoader};
+        let loader = std::rc::Rc::new(SimLoader::default());
+        for (i, src) in sc.parts.iter().enumerate() {
+            loader.sources.borrow_mut().insert(format!("m{i}"), src.clone());
+            loader.plans.borrow_mut().insert(format!("m{i}"), LoadPlan { latency: (i % 3) as u32, fault: 0 });
+        }
+        {
+            let (mut ctx, host) = js::new_context::<boa_engine::job::SimpleJobExecutor, SimLoader>(None, Some(loader.clone()));
+            for phase in 0..2 {
+                if boundaries {
+                    boa_gc::verif::collect_now();
+                    out.at_boundary += 1;
+                }
+                match loader.get_or_parse(&format!("m{entry}"), &mut ctx) {
+                    Err(e) => out.log.push(format!("#{phase} {}", js::error_string(&e, &mut ctx))),
+                    Ok(m) => {
+                        let p = m.load_link_evaluate(&mut ctx);
+                        if let Err(e) = ctx.run_jobs() {
+                            out.log.push(format!("#{phase} jobs:{}", js::error_string(&e, &mut ctx)));
+                        }
+                        let st = match p.state() {
+                            boa_engine::builtins::promise::PromiseState::Pending => "pending".to_string(),
+                            boa_engine::builtins::promise::PromiseState::Fulfilled(_) => "fulfilled".to_string(),
+                            boa_engine::builtins::promise::PromiseState::Rejected(v) => format!("rejected:{}", js::show(&v, &mut ctx)),
+                        };
+                        out.log.push(format!("#{phase} {st}"));
+                    }
+                }
+                out.log.extend(host.trace.take());
+                ctx.clear_kept_objects();
+            }
+            out.at_alloc = inst.fired.get();
+            out.alloc_points = inst.points.get();
+            weak_maps_before_drop = boa_gc::verif::stats().weak_maps;
+            drop(ctx);
+            drop(host);
+        }
+        drop(loader);
+    } else {
         let (mut ctx, host) = js::new_default_context();
         let mut rl = RuntimeLimits::default();
         rl.set_loop_iteration_limit(200_000);
@@ -325,7 +384,7 @@ pub const PROP: Prop = Prop {
     generate,
     execute,
     shrink,
-    rule: "one run = one program (1..3 kernels out of 34 feature kernels, possibly split across evaluations, or one of 858 harvested test groups = several evaluations sharing a context) x evaluation mode (sync / budget 1..256 with collections at yields) x collection schedule (every k-th allocation for k in {1,2,3,7,64} — k=1 enumerates every allocation point of the program —, seeded Bernoulli at 0.2..20 %, host-entry and job boundaries), executed under the schedule and under 'never collect'; non-trivial = at least one collection was injected; distinct = distinct (program, schedule, budget, allocation points, collections fired)",
+    rule: "one run = one program (1..3 kernels out of 34 feature kernels, possibly split across evaluations, one of 858 harvested test groups = several evaluations sharing a context, or — 1 run in 8 — a fault-free module graph from the C17 generator evaluated twice through the simulated loader) x evaluation mode (sync / budget 1..256 with collections at yields) x collection schedule (every k-th allocation for k in {1,2,3,7,64} — k=1 enumerates every allocation point of the program —, seeded Bernoulli at 0.2..20 %, host-entry and job boundaries), executed under the schedule and under 'never collect'; non-trivial = at least one collection was injected; distinct = distinct (program, schedule, budget, allocation points, collections fired)",
     real: &["lexer/parser/compiler/VM/builtins", "boa_gc collector and allocator", "SimpleJobExecutor", "WeakRef/FinalizationRegistry machinery"],
     stub: &["collection trigger decision (hook H1)", "SimClock", "SimHooks", "print/weakobs natives"],
     assumptions: &[
